@@ -47,6 +47,11 @@ RULE = ("generated: per communicator size R in 1..8 and length L (0, 1, R-1, R, 
         "environment dimension rotated over the cases: YGM_COMM_ISSEND_FREQ in {default, 0, 1, 8}, YGM_COMM_NUM_IRECVS in {default, 1, 2, 8}, "
         "YGM_COMM_NUM_ISENDS_WAIT in {default, 0, 1, 4}, cyclic placement of ranks on nodes for a third of the multi-node cases; thorough tier: "
         "65535 scratch arrays of the same type constructed before a second array that is then updated next to the first; "
+        "kind=lifetimes (harness mode `lifetimes`, signature array-lifetime*): 3-6 arrays of the same type held by std::unique_ptr in slots, constructed "
+        "(with and without default value, lengths 0 / < R / R / uneven / up to 40), copy-constructed and destroyed in a generated NON-nested order (the "
+        "oldest live array is destroyed first most of the time, then another one is constructed), update phases on the survivors, and after every "
+        "construction / destruction EVERY live array is dumped after a barrier and compared with its own sequential result and its own model run; the "
+        "fixed shape `A, B alive; update A; destroy A; construct C; update B; check B and C` is run on every layout; R in {1, 3, 4} (quick), 1..6 (thorough); "
         "a case = (R, L, layout, routing, buffer, env knobs, schedule seed, script[, sub-communicator split, order and scenarios]); non-trivial = at least one update")
 
 M64 = (1 << 64) - 1
@@ -274,6 +279,8 @@ def run_real(binary, case, sim_seed=None, policy=None):
             env[var] = case[key]
     env.update(case.get("sim_env") or {})
     args = ["array", case["len"], case["dv"], case["script"]]
+    if case.get("mode") == "lifetimes":
+        args = ["lifetimes", case["script"]]
     sub = case.get("sub")
     if sub:      # the same scenario code first (or afterwards) on a sub-communicator of another size, in the same process
         args = ["sub", sub["split"], sub["order"], len(sub["scen"])]
@@ -377,6 +384,8 @@ def case_id(case):
     cid = {k: case[k] for k in ("ranks", "len", "dv", "script", "nodes", "ppn", "routing", "buffer_kb", "sim_seed", "policy")}
     if case.get("sub"):
         cid["sub"] = case["sub"]
+    if case.get("mode"):
+        cid["mode"] = case["mode"]
     for key in KNOBS:
         if case.get(key) is not None:
             cid[key] = case[key]
@@ -513,6 +522,250 @@ def evaluate(case, sr, model_out):
     return of, cf
 
 
+# ----------------------------------------------------------------------------------------------------------------- lifetimes
+# Several arrays of ONE type whose lifetimes are not nested (std::unique_ptr slots in the harness): a handle of a live array must keep
+# addressing that array whatever is constructed or destroyed around it.
+
+def gen_life(rng, R, shape):
+    """script for harness mode `lifetimes`; shape 'seed' = A, B alive; update A; destroy A; construct C; update B; check B and C"""
+    ops = []
+    live = {}            # slot -> {"len", "born"}
+    fam = {}             # (slot, index) -> operator family used since the last barrier
+    single_used = set()
+    stat = {"upd": 0, "new": 0, "del": 0, "nonlifo": 0, "checks": 0, "copies": 0}
+    born = [0]
+
+    def pick_len():
+        c = [0, 1, max(R - 1, 1), R, R + 1, 2 * R - 1, 2 * R + 3, rng.randrange(1, R + 1), rng.randrange(R, 41), rng.randrange(1, 41)]
+        return rng.choice(c)
+
+    def barrier_seen():
+        fam.clear(); single_used.clear()
+
+    def new(k, L=None, dv=None):
+        L = pick_len() if L is None else L
+        dv = rng.choice([0, 1, 5, 255, 1000, M64, "-"]) if dv is None else dv
+        ops.append(f"n {k} {L} {dv}")
+        live[k] = {"len": L, "born": born[0]}; born[0] += 1
+        stat["new"] += 1
+
+    def copy(k, j):
+        ops.append("B"); barrier_seen()         # the copy constructor reads the local vector: the source has to be quiescent
+        ops.append(f"y {k} {j}")
+        live[k] = {"len": live[j]["len"], "born": born[0]}; born[0] += 1
+        stat["new"] += 1; stat["copies"] += 1
+
+    def delete(k):
+        if any(v["born"] > live[k]["born"] for v in live.values()):
+            stat["nonlifo"] += 1                # a younger array outlives this one
+        ops.append(f"D {k}")
+        del live[k]
+        for key in [key for key in fam if key[0] == k]:       # the slot may be taken by another array before the next barrier
+            del fam[key]
+            single_used.discard(key)
+        stat["del"] += 1
+
+    def phase(k, every=False):
+        n_el = live[k]["len"]
+        if n_el == 0:
+            return
+        ops.append(f"T {k}")
+        st, sz = py_blocks(n_el, R)
+        bd = sorted({i for s_, z in zip(st, sz) if z > 0 for i in (s_, s_ + z - 1)})
+        targets = list(range(n_el)) if every else []
+        targets += [rng.choice(bd) if rng.random() < 0.5 else rng.randrange(n_el) for _ in range(rng.randrange(1, 3) * max(R, 2) + rng.randrange(0, 4))]
+        for i in targets:
+            key = (k, i)
+            if key not in fam:
+                fam[key] = rng.choice(list(FAMILIES) + ["single"])
+            if fam[key] == "single":
+                if key in single_used:
+                    continue
+                single_used.add(key)
+                op = rng.choice(SINGLE)
+            else:
+                op = rng.choice(FAMILIES[fam[key]])
+            ops.append(f"{op} {rng.randrange(R)} {i}" + ("" if op in "+-" else f" {rand_val(rng)}"))
+            stat["upd"] += 1
+
+    def check(ks=None):
+        ks = list(live) if ks is None else ks
+        rng.shuffle(ks)
+        for k in ks:
+            ops.append(f"c {k}"); stat["checks"] += 1
+        barrier_seen()
+
+    def free_slot():
+        return rng.choice([k for k in range(8) if k not in live])
+
+    if shape == "seed":
+        L = rng.choice([37, 2 * R + 1, max(R - 1, 1), 7])
+        new(0, L, rng.choice([0, "-"])); new(1, L, rng.choice([0, "-"]))
+        phase(0, every=True)
+        ops.append("B"); barrier_seen()
+        delete(0)                                   # the OLDER array goes first
+        new(2, rng.choice([L, L + 1, max(R - 1, 1)]), 1000)
+        phase(1, every=True)
+        check([1, 2])
+        phase(2); phase(1)
+        check()
+    else:
+        total = rng.randrange(3, 7)                # arrays constructed over the whole run
+        new(free_slot()); new(free_slot())
+        if rng.random() < 0.5:
+            new(free_slot())
+        for k in list(live):
+            if rng.random() < 0.7:
+                phase(k)
+        check()
+        guard = 0
+        while (stat["new"] < total or stat["nonlifo"] == 0) and guard < 12:
+            guard += 1
+            if len(live) >= 2 and (len(live) >= 4 or rng.random() < 0.6):
+                order = sorted(live, key=lambda k: live[k]["born"])
+                delete(order[0] if rng.random() < 0.7 else rng.choice(order[:-1]))      # never the youngest: not nested
+                if rng.random() < 0.3:             # survivors are used while the registry has a hole
+                    for k in list(live):
+                        if rng.random() < 0.6:
+                            phase(k)
+                    check()
+            if rng.random() < 0.25 and live:
+                copy(free_slot(), rng.choice(list(live)))
+            else:
+                new(free_slot())
+            ks = list(live); rng.shuffle(ks)
+            for k in ks:
+                if rng.random() < 0.75:
+                    phase(k, every=rng.random() < 0.2)
+            check()
+        ks = list(live); rng.shuffle(ks)
+        for k in ks:
+            phase(k)
+        check()
+    nodes, ppn = rng.choice(layouts(R))
+    script = ";".join(ops)
+    return {"mode": "lifetimes", "ranks": R, "len": 0, "dv": 0, "script": script, "nodes": nodes, "ppn": ppn, "routing": rng.choice(ROUTES),
+            "buffer_kb": rng.choice([0, 0, 1, None]), "sim_seed": rng.randrange(1, 1 << 30), "policy": rng.choice(POLICIES),
+            "kind": "lifetimes", "shape": shape, "updates": stat["upd"], "resizes": 0, "emits": 0, "life": stat}
+
+
+def life_expected(case):
+    """sequential reading of a lifetimes script: ([(slot, instance, values by global index)] per check op in script order,
+    {instance: (len, dv, model tokens)}).  Every slot's array is followed on its own: nothing that happens to another array may show."""
+    slots, inst, n_inst, cur, checks = {}, {}, 0, 0, []
+    for op in case["script"].split(";"):
+        f = op.split()
+        if f[0] == "B":
+            continue
+        if f[0] == "T":
+            cur = int(f[1])
+        elif f[0] == "n":
+            dv = 0 if f[3] == "-" else int(f[3])      # array(comm, size): value-initialised default
+            slots[int(f[1])] = {"id": n_inst, "vals": [dv] * int(f[2])}
+            inst[n_inst] = {"len": int(f[2]), "dv": dv, "toks": []}; n_inst += 1
+        elif f[0] == "y":
+            src = slots[int(f[2])]
+            slots[int(f[1])] = {"id": n_inst, "vals": list(src["vals"])}
+            # for the model a copy is an array that went through its source's history up to here
+            inst[n_inst] = dict(inst[src["id"]], toks=[t for t in inst[src["id"]]["toks"] if t != "F"]); n_inst += 1
+        elif f[0] == "D":
+            del slots[int(f[1])]
+        elif f[0] == "c":
+            a = slots[int(f[1])]
+            checks.append((int(f[1]), a["id"], list(a["vals"])))
+            inst[a["id"]]["toks"].append("F")
+        else:
+            a = slots[cur]
+            i = int(f[2]); x = int(f[3]) if len(f) > 3 else 0
+            a["vals"][i] = py_eval(f[0], i, a["vals"][i], x)
+            inst[a["id"]]["toks"].append(":".join([f[0]] + f[2:]))
+    return checks, inst
+
+
+def life_model_lines(case):
+    """one model history per array instance that is checked at least once (the model has no notion of other arrays: that is the point)"""
+    _, inst = life_expected(case)
+    return [(k, f"{v['len']} {case['ranks']} {v['dv']} | " + " ".join(v["toks"])) for k, v in sorted(inst.items()) if "F" in v["toks"]]
+
+
+class Sec2:
+    """a completed prefix of a failed run, presented as a run that ended there"""
+
+    def __init__(self, sr, outs):
+        self.verdict, self.stderr, self.blocked, self.outs = "ok", sr.stderr, sr.blocked, outs
+
+
+def evaluate_life(case, sr, model_out, only=None):
+    """model_out: answers to life_model_lines(case), same order (or None); only: judge just these leading checks (prefix of a failed run)"""
+    of, cf = [], []
+    R = case["ranks"]
+    cid = case_id(case)
+    checks, _ = life_expected(case)
+    per_rank = [[l for l in sr.outs.get(r, []) if l.startswith("life ")] for r in range(R)]
+    if sr.verdict != "ok":
+        # the dumps every rank completed before the failure are still judged: a wrong element says more than the crash that follows it
+        done = min(len(p) for p in per_rank)
+        part, _ = evaluate_life(case, Sec2(sr, {r: per_rank[r][:done] for r in range(R)}), None, checks[:done]) if done else ([], [])
+        for f in part:
+            f["case"] = dict(f["case"], verdict=sr.verdict, stderr=sr.stderr[-400:])
+        of = part[:3] or [{"what": f"real run with non-nested array lifetimes failed: {sr.verdict}", "signature": "array-lifetime run-failed " + sr.verdict.split(":")[0],
+                           "case": dict(cid, verdict=sr.verdict, stderr=sr.stderr[-400:], blocked=sr.blocked)}]
+        return of, cf
+    if only is not None:
+        checks = only
+    bad_lines = [l for r in range(R) for l in sr.outs.get(r, []) if l.startswith("bad-")]
+    if bad_lines or any(len(p) != len(checks) for p in per_rank):
+        of.append({"what": "a rank produced a different number of dumps" + (f" ({bad_lines[0]})" if bad_lines else ""), "signature": "array-lifetime dump-count",
+                   "case": dict(cid, got=[len(p) for p in per_rank], want=len(checks))})
+        return of, cf
+    mdumps = None
+    if model_out is not None:
+        mdumps = {}
+        for (iid, _), ans in zip(life_model_lines(case), model_out):
+            d = ans.split(" # ")
+            if "trap" in ans or "bad-op" in ans:
+                cf.append({"relation": "ArrayOps.run executes every legal history", "what": f"model answered {ans[:200]!r} for array instance {iid}", "case": cid})
+                d = None
+            mdumps[iid] = d
+    nth = {}
+    for d, (slot, iid, vals) in enumerate(checks):
+        j = nth.get(iid, 0); nth[iid] = j + 1
+        seen, sizes = [], set()
+        for r in range(R):
+            t = per_rank[r][d].split()
+            if int(t[1]) != slot:
+                of.append({"what": f"check #{d}: rank {r} dumped slot {t[1]}, script says {slot}", "signature": "array-lifetime dump-count", "case": dict(cid, dump=d)})
+                return of, cf
+            sizes.add(int(t[2]))
+            for tok in t[3:]:
+                a, b = tok.split(":")
+                seen.append((int(a), int(b), r))
+        idx = sorted(i for i, _, _ in seen)
+        if idx != list(range(len(vals))) or sizes != {len(vals)}:
+            of.append({"what": f"check #{d} (slot {slot}, array instance {iid}): size()/indices over all ranks are not {len(vals)} / 0..len-1 exactly once",
+                       "signature": "array-lifetime forall-cover", "case": dict(cid, dump=d, slot=slot, sizes=sorted(sizes), seen=idx[:60])})
+            continue
+        bad = [(i, v, vals[i]) for i, v, _ in seen if v != vals[i]]
+        if bad:
+            of.append({"what": f"check #{d} (slot {slot}, array instance {iid}, other arrays of the type constructed/destroyed meanwhile): element {bad[0][0]} is "
+                               f"{bad[0][1]}, sequential result of the updates addressed to THIS array is {bad[0][2]}",
+                       "signature": "array-lifetime value", "case": dict(cid, dump=d, slot=slot, instance=iid, wrong=bad[:5], wrong_count=len(bad))})
+        md = (mdumps or {}).get(iid)
+        if md is not None:
+            if j >= len(md):
+                cf.append({"relation": "ArrayOps.run executes every legal history", "what": f"model produced {len(md)} dumps for array instance {iid}", "case": cid})
+                continue
+            mr = md[j].split("|")
+            mr += [""] * (R - len(mr))
+            for r in range(R):
+                real = " ".join(per_rank[r][d].split()[3:])
+                if real != mr[r].strip():
+                    cf.append({"relation": "ArrayOps.presented(run …) == array::for_all output, rank by rank (array among others of its type, lifetimes not nested)",
+                               "what": f"check #{d} slot {slot} rank {r}: real [{real[:120]}] model [{mr[r].strip()[:120]}]", "case": dict(cid, dump=d, rank=r)})
+                    break
+    return of, cf
+
+
 def run(tier, seed, model_ok=True):
     res = C.Result()
     res.rule = RULE
@@ -561,6 +814,46 @@ def run(tier, seed, model_ok=True):
         cases.append({"ranks": 2, "len": 5, "dv": 1, "script": "F;K 65535 c;N 7 9;T 1;s 0 3 8;p 1 6 4;+ 0 0;F;T 0;F;p 1 4 2;F;T 1;F", "nodes": 1, "ppn": 2,
                       "routing": "NONE", "buffer_kb": None, "sim_seed": 7, "policy": "uniform", "kind": "many-arrays", "updates": 4, "resizes": 0, "emits": 0,
                       "sim_env": {"SIMMPI_ICOLL_IDLE": 10 ** 9}, "max_steps": 10 ** 9})
+    # arrays of one type with lifetimes that are not nested (own random stream: the scenarios above stay what they were)
+    rng3 = random.Random(seed * 15485863 + (131 if tier == "quick" else 13100))
+    lcases, lsamples = [], []
+    for R in ((1, 3, 4) if tier == "quick" else range(1, 7)):
+        for k in range(10 if tier == "quick" else 300):
+            lc = gen_life(rng3, R, "seed" if k == 0 else "random")
+            env_knobs(lc, len(lcases))
+            lcases.append(lc)
+    lmlines = [[l for _, l in life_model_lines(c)] for c in lcases]
+    lall = C.model("array", [l for ls in lmlines for l in ls]) if model_ok else None
+    lruns = C.pmap(lambda c: run_real(binary, c), lcases)
+    pos = 0
+    for case, sr, ls in zip(lcases, lruns, lmlines):
+        mo = lall[pos:pos + len(ls)] if lall is not None else None
+        pos += len(ls)
+        res.evaluations += 1
+        of, cf = evaluate_life(case, sr, mo)
+        if cf and not of:
+            # search around the disagreeing case for an input on which the property itself fails
+            for j in range(6):
+                c2 = dict(case, sim_seed=case["sim_seed"] + 1 + j, policy=POLICIES[j % len(POLICIES)])
+                of2, _ = evaluate_life(c2, run_real(binary, c2), None)
+                if of2:
+                    of = of2
+                    break
+        res.oracle_failures += of
+        res.corr_failures += cf
+        st = case["life"]
+        if case["updates"] > 0:
+            res.distinct.add((case["ranks"], "lifetimes", hashlib.sha1(case["script"].encode()).hexdigest()[:12], case["routing"], case["buffer_kb"]))
+        res.count("ranks=%d" % case["ranks"]); res.count("kind=lifetimes"); res.count("lifetimes:shape=" + case["shape"])
+        res.count("routing=" + case["routing"]); res.count("buffer_kb=" + str(case["buffer_kb"]))
+        res.count("updates", case["updates"])
+        res.count("lifetimes:arrays_constructed", st["new"]); res.count("lifetimes:copies", st["copies"]); res.count("lifetimes:destroyed_before_a_younger_one", st["nonlifo"])
+        res.count("lifetimes:checks", st["checks"])
+        if sr.verdict == "ok":
+            res.traces_validated += 1
+        if case["ranks"] == 3 and case["shape"] == "random" and not lsamples:
+            lsamples.append({"case": {k: case[k] for k in ("ranks", "routing", "buffer_kb", "nodes", "ppn", "mode")}, "script": case["script"][:300],
+                             "real_rank0": sr.outs.get(0, [])[:3]})
     allunits = [u for c in cases for u in units(c)]
     allm = C.model("array", [model_line(u) for u in allunits]) if model_ok else [None] * len(allunits)
     mouts, pos = [], 0
@@ -602,6 +895,8 @@ def run(tier, seed, model_ok=True):
         if case["ranks"] == 4 and case["len"] in (3, 5, 7) and case["updates"]:
             res.sample({"case": {k: case[k] for k in ("ranks", "len", "dv", "routing", "buffer_kb", "nodes", "ppn")}, "script": case["script"][:300],
                         "real_rank0": sr.outs.get(0, [])[:3], "model": (mo or "")[:200]}, cap=2)
+    for smp in lsamples:
+        res.sample(smp)
     return res
 
 
@@ -618,6 +913,17 @@ def replay(data):
     print("verdict", sr.verdict, sr.stderr[-300:])
     for r in range(case["ranks"]):
         print(r, sr.outs.get(r))
+    if case.get("mode") == "lifetimes":
+        try:
+            mo = C.model("array", [l for _, l in life_model_lines(case)])
+        except Exception as ex:  # noqa: BLE001
+            print("model unavailable:", ex)
+            mo = None
+        print("model", mo)
+        of, cf = evaluate_life(case, sr, mo)
+        for f in of + cf:
+            print("FAIL", f.get("signature") or f.get("relation"), f["what"])
+        return not of and not cf
     try:
         mo = C.model("array", [model_line(u) for u in units(case)])
     except Exception as ex:  # noqa: BLE001
